@@ -11,7 +11,7 @@ SPEC = dict(
          "plus one massless intermediate body in some chains, Motion::Steady / Motion::Sinusoid prescribed mobilizers (1/6 of the "
          "eligible ones), one Rod / Ball / PointInPlane constraint in 1/3 of the cases, random applied mobility and body forces; "
          "one forced lone-particle configuration per 25 cases; distinct = distinct exported records",
-    partial="the prescribed-mobilizer branch (P+ = P, z += P H udot_p, tau) and constraint forces are part of the executable model "
+    partial="the theorems are stated about the abstract Matrix twin TreeDynAbs.MBT; the executed list/rose-tree recursions of SimbodyModel/TreeDyn.lean are tied to it by refinement lemmas per 6-D operation (TreeDynRefine) and by the simulation theorems listed in notes (TreeDynSim), not by a complete end-to-end equivalence: packing of the u-vector (slice/scatter), building the tree from the parent array and the Gauss-Jordan inverse are carried by the correspondence and the per-case wf check only; the prescribed-mobilizer branch (P+ = P, z += P H udot_p, tau) and constraint forces are part of the executable model "
             "and of the implementation-side predicates, but the abstract theorems cover free (non-prescribed) mobilizers; "
             "constraint forces enter the theorems as applied forces",
     assumptions=[
